@@ -52,13 +52,50 @@
              and an unknown flag, a non-list, a non-string element  =>  INVALID_PARAMS whatever the
              block identifier (parameters are decoded before the handler runs).
    The implementation layer keeps the storage-history KEYS the two state backends write
-   (slog: core/state writeHistory, every diff entry; llog: core/deprecatedstate, changed leaves
+   (nh.stor: core/state writeHistory, every diff entry; lh.stor: core/deprecatedstate, changed leaves
    only) and answers last_update_block the way lastUpdatedBlockNumber does: the greatest logged
    block number <= the reader's block (unbounded for the head reader behind `latest`).
    Expected-violation switch (never TRUE for the code as it is or as repaired):
      LubZeroShortcut         the handler skips the history lookup when the value is zero ("an unset
                              slot has no update to report"): a slot that was set and later cleared
-                             then reports 0 instead of the clearing block. *)
+                             then reports 0 instead of the clearing block.
+
+   STATE HISTORY (what a reverted block leaves behind, seen through reads by number / hash).  The state
+   methods do not read "the state of block n" from one place: `latest` reads the head (contract record /
+   tries), every other identifier reads the HISTORY buckets, which both state backends keep per diff
+   SECTION and which no commitment protects:
+     new state (core/state): (key, n) -> value AFTER block n for every storage / nonce / replaced-class /
+        deployed-class entry of the diff (writeHistory), read as "greatest entry <= n"; deleteHistory
+        removes (key, n) section by section on Revert; the contract record carries the deployment height,
+        the class record its declaration height;
+     legacy (core/deprecatedstate): (key, n) -> value BEFORE block n, written when the trie reports a
+        change (storage) or always (nonce, class), read as "smallest entry > n, else the head value";
+        performStateDeletions removes them on Revert; deployment height and class records likewise.
+   The implementation layer keeps both (`nh`, `lh`: history entries, deployment heights, declaration
+   heights) and answers the five state methods from them per backend (`res`: new state, `resL`: legacy).
+   SCENARIOS.  Besides the "base" alphabet (blocks that mix sections) the diff alphabet has one scenario per
+   state-diff section IN ISOLATION (`scn`, fixed per behaviour): after a setup block, variant 0 of every
+   height applies section S to target 1 only, variant 1 to target 2 only ("S for another contract"),
+   variant 2 is a block with an empty state diff - so that every fork shape "block N with S for X
+   reverted; replacement N without S / with S for another contract / with S at N+1" is a chain:
+     stor (overwrite)  clear (non-zero -> 0)  zz (zero onto a never-written slot)  nonce  repl (replace_class)
+     deploy  depacc (deploy + nonce, the deploy_account shape)  decl0 (Cairo-0)  decl1 (Sierra)
+     mig (migrated compiled class; observable through getStateUpdate only)
+   RESIDUE SWITCHES (expected-violation only; `Leave` = {} is the code as it is AND as repaired): a Revert
+   that leaves the entries of ONE section behind -
+     n:stor   new state: the storage-history entries          n:stor0  ... only those whose value is zero
+     n:nonce  new state: nonce entries of diff.Nonces (those of deployed contracts are still deleted)
+     n:repl   new state: class-hash entries of diff.ReplacedClasses (the seeded change C08-7)
+     n:decl / l:decl  the class record (declaration height) of a class the block declared
+     l:stor   legacy: the storage log entries (shows in last_update_block only: legacy entries carry the
+              value before the block, which the replacement chain shares)
+     l:relog  legacy: the reverse diff is applied WITH logging, so (key, n) -> the reverted value appears
+              for storage, nonce and class alike (shows below n)
+   each must be refuted by TLC through a read by number or hash on the replacement chain
+   (RpcRead_x_*.cfg); the counterexamples are replayed as directed scripts by checks/C08.py.
+   Not residue switches, because no C08 read method can observe them: the class-hash / nonce entry of a
+   DEPLOY (a later deploy writes its own, younger entry; before it the deployment height hides the
+   contract), the legacy deployment height of a purged contract, the casm metadata of a migration. *)
 EXTENDS Integers, Sequences, FiniteSets, TLC
 
 CONSTANTS MaxLen,        \* maximal number of blocks in the chain (numbers 0..MaxLen-1)
@@ -68,9 +105,16 @@ CONSTANTS MaxLen,        \* maximal number of blocks in the chain (numbers 0..Ma
           FixZeroHashState,
           FixLegacyZeroWriteLog,
           LubZeroShortcut,
-          WithPreConfirmed   \* also exercise the pre_confirmed tag (no pre-confirmed data: not found)
+          WithPreConfirmed,  \* also exercise the pre_confirmed tag (no pre-confirmed data: not found)
+          NVar,          \* block variants per height: 2 (the base alphabet) or 3 (the section scenarios)
+          Scenarios,     \* the diff alphabets a behaviour may pick (subset of AllScenarios)
+          Leave          \* residue switches: what a Revert leaves behind ({} = the code)
 
-Variants == {0, 1}
+AllScenarios == {"base", "stor", "clear", "zz", "nonce", "repl", "deploy", "depacc", "decl0", "decl1", "mig"}
+LeaveKinds == {"n:stor", "n:stor0", "n:nonce", "n:repl", "n:decl", "l:decl", "l:stor", "l:relog"}
+ASSUME Scenarios \subseteq AllScenarios /\ Scenarios # {} /\ Leave \subseteq LeaveKinds /\ NVar \in {2, 3}
+
+Variants == 0..(NVar - 1)
 Contracts == {1, 2}      \* c1, c2
 Slots == {1, 2}
 Classes == {1, 2}        \* k1 = Cairo-0 class, k2 = Sierra class
@@ -120,9 +164,14 @@ MaxOf(S) == CHOOSE x \in S : \A y \in S : y <= x
 EmptyState == [class |-> [c \in Contracts |-> NoClass],
                stor |-> [c \in Contracts |-> [s \in Slots |-> 0]],
                nonce |-> [c \in Contracts |-> 0],
-               declared |-> {}]
+               declared |-> {},
+               migrated |-> {}]     \* Sierra classes whose compiled class hash was migrated
 
-DiffOn(st, n, v) ==
+NoDiff == [declared0 |-> {}, declared1 |-> {}, deployed |-> {}, replaced |-> {}, migrated |-> {},
+           storage |-> {}, nonces |-> {}]
+
+(* the "base" alphabet: blocks that mix sections (variants 0 and 1 only) *)
+BaseDiff(st, n, v) ==
   LET decl0 == IF n = 0 THEN {1} ELSE {}
       decl1 == IF 2 \notin st.declared /\ ((n = 1 /\ v = 0) \/ n = 2) THEN {2} ELSE {}
       dep == (IF n = 0 THEN {<<1, 1>>} ELSE {})
@@ -145,8 +194,47 @@ DiffOn(st, n, v) ==
               \cup (IF live(2) /\ n = 2 /\ v = 0 THEN {<<2, 2, 0>>} ELSE {})
       nonces == (IF live(1) /\ (v = 0 \/ n % 2 = 1) THEN {<<1, n + 1>>} ELSE {})
                 \cup (IF live(2) /\ n = 3 THEN {<<2, 1>>} ELSE {})
-  IN [declared0 |-> decl0, declared1 |-> decl1, deployed |-> dep, replaced |-> repl,
-      storage |-> stor, nonces |-> nonces]
+  IN IF v > 1 THEN NoDiff
+     ELSE [declared0 |-> decl0, declared1 |-> decl1, deployed |-> dep, replaced |-> repl, migrated |-> {},
+           storage |-> stor, nonces |-> nonces]
+
+(* the section scenarios.  Height 0 is the setup block: both classes declared and both contracts
+   deployed with k1 (slot 1 set, slot 2 never written, nonce 1), minus what the scenario itself is about
+   (deploy / depacc: no contract yet; decl0: k1 undeclared, the contracts instantiate k2; decl1: k2
+   undeclared).  Sec(sc, st, x, n): section sc applied at height n to target x ALONE (a contract; for
+   decl0 / decl1 / mig the class, target 1 only), the empty diff where it does not apply. *)
+Setup(sc) ==
+  LET two == sc \notin {"deploy", "depacc"}
+      k == IF sc = "decl0" THEN 2 ELSE 1
+  IN [declared0 |-> IF sc = "decl0" THEN {} ELSE {1},
+      declared1 |-> IF sc = "decl1" THEN {} ELSE {2},
+      deployed |-> IF two THEN {<<1, k>>, <<2, k>>} ELSE {},
+      replaced |-> {}, migrated |-> {},
+      storage |-> IF two THEN {<<1, 1, 5>>, <<2, 1, 6>>} ELSE {},
+      nonces |-> IF two THEN {<<1, 1>>, <<2, 1>>} ELSE {}]
+
+Sec(sc, st, x, n) ==
+  LET live == st.class[x] # NoClass IN
+  IF sc = "stor" /\ live THEN [NoDiff EXCEPT !.storage = {<<x, 1, 10 + n>>}]
+  ELSE IF sc = "clear" /\ live THEN [NoDiff EXCEPT !.storage = {<<x, 1, IF st.stor[x][1] # 0 THEN 0 ELSE 10 + n>>}]
+  ELSE IF sc = "zz" /\ live THEN [NoDiff EXCEPT !.storage = {<<x, 2, 0>>}]
+  ELSE IF sc = "nonce" /\ live THEN [NoDiff EXCEPT !.nonces = {<<x, st.nonce[x] + 1>>}]
+  ELSE IF sc = "repl" /\ live THEN [NoDiff EXCEPT !.replaced = {<<x, IF st.class[x] = 1 THEN 2 ELSE 1>>}]
+  ELSE IF sc = "deploy" /\ ~live THEN [NoDiff EXCEPT !.deployed = {<<x, 1>>}]
+  ELSE IF sc = "depacc" /\ ~live THEN [NoDiff EXCEPT !.deployed = {<<x, 1>>}, !.nonces = {<<x, 1>>}]
+  ELSE IF sc = "decl0" /\ x = 1 /\ 1 \notin st.declared THEN [NoDiff EXCEPT !.declared0 = {1}]
+  ELSE IF sc = "decl1" /\ x = 1 /\ 2 \notin st.declared THEN [NoDiff EXCEPT !.declared1 = {2}]
+  ELSE IF sc = "mig" /\ x = 1 /\ 2 \in (st.declared \ st.migrated) THEN [NoDiff EXCEPT !.migrated = {2}]
+  ELSE NoDiff
+
+DiffOn(sc, st, n, v) ==
+  IF sc = "base" THEN BaseDiff(st, n, v)
+  ELSE IF n = 0 THEN Setup(sc)
+  ELSE IF v = 2 THEN NoDiff
+  ELSE Sec(sc, st, v + 1, n)
+
+(* variants that exist at height n: the base alphabet has two; a scenario has one setup block *)
+VariantsAt(sc, n) == IF sc = "base" THEN {0, 1} \cap Variants ELSE IF n = 0 THEN {0} ELSE Variants
 
 ApplyDiff(st, d) ==
   [class |-> [c \in Contracts |->
@@ -158,44 +246,120 @@ ApplyDiff(st, d) ==
                 THEN (CHOOSE x \in d.storage : x[1] = c /\ x[2] = s)[3] ELSE st.stor[c][s]]],
    nonce |-> [c \in Contracts |->
                 IF \E x \in d.nonces : x[1] = c THEN (CHOOSE x \in d.nonces : x[1] = c)[2] ELSE st.nonce[c]],
-   declared |-> st.declared \cup d.declared0 \cup d.declared1]
+   declared |-> st.declared \cup d.declared0 \cup d.declared1,
+   migrated |-> st.migrated \cup d.migrated]
 
-RECURSIVE StateOf(_)
-StateOf(p) == IF p = <<>> THEN EmptyState
-              ELSE ApplyDiff(StateOf(Front(p)), DiffOn(StateOf(Front(p)), Len(p) - 1, Last(p)))
-(* constant-level tables: TLC evaluates them once *)
-StateTab == [p \in Paths \cup {<<>>} |-> StateOf(p)]
-DiffTab == [p \in Paths |-> DiffOn(StateTab[Front(p)], Len(p) - 1, Last(p))]
+RECURSIVE StateOf(_, _)
+StateOf(sc, p) == IF p = <<>> THEN EmptyState
+                  ELSE ApplyDiff(StateOf(sc, Front(p)), DiffOn(sc, StateOf(sc, Front(p)), Len(p) - 1, Last(p)))
+(* constant-level tables per scenario: TLC evaluates them once *)
+StateTabs == [sc \in Scenarios |-> [p \in Paths \cup {<<>>} |-> StateOf(sc, p)]]
+DiffTabs == [sc \in Scenarios |-> [p \in Paths |-> DiffOn(sc, StateTabs[sc][Front(p)], Len(p) - 1, Last(p))]]
 TxsOf(p) == Txs(Len(p) - 1, Last(p))
 
-(* storage history: the block of path p has a state-diff entry for slot s of contract c ... *)
+(* ---- history buckets of the two state backends (see STATE HISTORY above) ---- *)
 SlotKeys == Contracts \X Slots
-WroteSlot(p, c, s) == \E x \in DiffTab[p].storage : x[1] = c /\ x[2] = s
-(* ... and the legacy backend logs it: ContractUpdater.UpdateStorage calls the history callback only
-   when trie.Put returned an old value, which it does not for zero written to an absent leaf *)
-LegacyLogs(p, c, s) ==
-  \E x \in DiffTab[p].storage :
-     x[1] = c /\ x[2] = s /\ (FixLegacyZeroWriteLog \/ ~(x[3] = 0 /\ StateTab[Front(p)].stor[c][s] = 0))
-(* the history keys a backend holds when the node holds chain c (they are written by Store and
-   deleted by Revert entry by entry; IndexesDescribeChain checks that this is what is left) *)
-SLogOf(c) == [k \in SlotKeys |-> {n \in 0..(Len(c) - 1) : WroteSlot(Prefix(c, n + 1), k[1], k[2])}]
-LLogOf(c) == [k \in SlotKeys |-> {n \in 0..(Len(c) - 1) : LegacyLogs(Prefix(c, n + 1), k[1], k[2])}]
-(* DECLARATIVE: the last block <= n of chain c whose state diff writes slot s of contract ct; 0 if none *)
-DLubIn(c, n, ct, s) ==
-  LET W == {m \in 0..n : WroteSlot(Prefix(c, m + 1), ct, s)} IN IF W = {} THEN 0 ELSE MaxOf(W)
+StorOf(d, c, s) == {x \in d.storage : x[1] = c /\ x[2] = s}      \* at most one entry each
+NonceOf(d, c) == {x \in d.nonces : x[1] = c}
+ReplOf(d, c) == {x \in d.replaced : x[1] = c}
+DeplOf(d, c) == {x \in d.deployed : x[1] = c}
+Pick(X) == CHOOSE x \in X : TRUE
+Put(E, n, v) == {e \in E : e[1] # n} \cup {<<n, v>>}     \* the key is (prefix, n): a Put overwrites
+Del(E, n) == {e \in E : e[1] # n}
+EmptyH == [stor |-> [k \in SlotKeys |-> {}], nonce |-> [c \in Contracts |-> {}], cls |-> [c \in Contracts |-> {}],
+           dep |-> [c \in Contracts |-> -1], cat |-> [k \in Classes |-> -1]]
+
+(* the legacy backend logs a storage write only when trie.Put reports a change: ContractUpdater.UpdateStorage
+   calls the history callback only when Put returned an old value, which it does not for zero written to an
+   absent leaf *)
+LegacyLogsD(d, before, c, s) ==
+  \E x \in StorOf(d, c, s) : FixLegacyZeroWriteLog \/ ~(x[3] = 0 /\ before.stor[c][s] = 0)
+
+(* Store of the block with diff d at height n; `before` is the state it is applied to *)
+StoreNH(h, d, n) ==
+  [stor |-> [k \in SlotKeys |-> IF StorOf(d, k[1], k[2]) # {} THEN Put(h.stor[k], n, Pick(StorOf(d, k[1], k[2]))[3])
+                                ELSE h.stor[k]],
+   nonce |-> [c \in Contracts |-> IF NonceOf(d, c) # {} THEN Put(h.nonce[c], n, Pick(NonceOf(d, c))[2]) ELSE h.nonce[c]],
+   cls |-> [c \in Contracts |-> IF ReplOf(d, c) # {} THEN Put(h.cls[c], n, Pick(ReplOf(d, c))[2])
+                                ELSE IF DeplOf(d, c) # {} THEN Put(h.cls[c], n, Pick(DeplOf(d, c))[2]) ELSE h.cls[c]],
+   dep |-> [c \in Contracts |-> IF DeplOf(d, c) # {} THEN n ELSE h.dep[c]],
+   cat |-> [k \in Classes |-> IF k \in (d.declared0 \cup d.declared1) /\ h.cat[k] = -1 THEN n ELSE h.cat[k]]]
+StoreLH(h, d, n, before) ==
+  [stor |-> [k \in SlotKeys |-> IF LegacyLogsD(d, before, k[1], k[2]) THEN Put(h.stor[k], n, before.stor[k[1]][k[2]])
+                                ELSE h.stor[k]],
+   nonce |-> [c \in Contracts |-> IF NonceOf(d, c) # {} THEN Put(h.nonce[c], n, before.nonce[c]) ELSE h.nonce[c]],
+   cls |-> [c \in Contracts |-> IF ReplOf(d, c) # {} THEN Put(h.cls[c], n, before.class[c]) ELSE h.cls[c]],
+   dep |-> [c \in Contracts |-> IF DeplOf(d, c) # {} THEN n ELSE h.dep[c]],
+   cat |-> [k \in Classes |-> IF k \in (d.declared0 \cup d.declared1) /\ h.cat[k] = -1 THEN n ELSE h.cat[k]]]
+
+(* Revert of that block (state.deleteHistory + flush / deprecatedstate.performStateDeletions +
+   removeDeclaredClasses + purgeContract), section by section; `Leave` lets one of them stay *)
+KeepStorN(v) == "n:stor" \in Leave \/ ("n:stor0" \in Leave /\ v = 0)
+RevertNH(h, d, n) ==
+  [stor |-> [k \in SlotKeys |-> IF StorOf(d, k[1], k[2]) # {} /\ ~KeepStorN(Pick(StorOf(d, k[1], k[2]))[3])
+                                THEN Del(h.stor[k], n) ELSE h.stor[k]],
+   nonce |-> [c \in Contracts |-> IF (NonceOf(d, c) # {} /\ "n:nonce" \notin Leave) \/ DeplOf(d, c) # {}
+                                  THEN Del(h.nonce[c], n) ELSE h.nonce[c]],
+   cls |-> [c \in Contracts |-> IF (ReplOf(d, c) # {} /\ "n:repl" \notin Leave) \/ DeplOf(d, c) # {}
+                                THEN Del(h.cls[c], n) ELSE h.cls[c]],
+   dep |-> [c \in Contracts |-> IF DeplOf(d, c) # {} THEN -1 ELSE h.dep[c]],
+   cat |-> [k \in Classes |-> IF k \in (d.declared0 \cup d.declared1) /\ h.cat[k] = n /\ "n:decl" \notin Leave
+                              THEN -1 ELSE h.cat[k]]]
+(* `gone` is the state of the reverted block, `back` the state restored *)
+RevertLH(h, d, n, gone, back) ==
+  LET relog == "l:relog" \in Leave IN
+  [stor |-> [k \in SlotKeys |->
+               IF StorOf(d, k[1], k[2]) = {} THEN h.stor[k]
+               ELSE IF relog /\ gone.stor[k[1]][k[2]] # back.stor[k[1]][k[2]] THEN Put(h.stor[k], n, gone.stor[k[1]][k[2]])
+               ELSE IF "l:stor" \in Leave THEN h.stor[k] ELSE Del(h.stor[k], n)],
+   nonce |-> [c \in Contracts |-> IF NonceOf(d, c) = {} THEN h.nonce[c]
+                                  ELSE IF relog THEN Put(h.nonce[c], n, gone.nonce[c]) ELSE Del(h.nonce[c], n)],
+   cls |-> [c \in Contracts |-> IF ReplOf(d, c) = {} THEN h.cls[c]
+                                ELSE IF relog THEN Put(h.cls[c], n, gone.class[c]) ELSE Del(h.cls[c], n)],
+   dep |-> [c \in Contracts |-> IF DeplOf(d, c) # {} THEN -1 ELSE h.dep[c]],
+   cat |-> [k \in Classes |-> IF k \in (d.declared0 \cup d.declared1) /\ h.cat[k] = n /\ "l:decl" \notin Leave
+                              THEN -1 ELSE h.cat[k]]]
+
+(* what the buckets hold when the node holds the chain of path p and no Revert left anything behind:
+   exactly what storing that chain block by block writes (IndexesDescribeChain) *)
+RECURSIVE NHOf(_, _), LHOf(_, _)
+NHOf(sc, p) == IF p = <<>> THEN EmptyH ELSE StoreNH(NHOf(sc, Front(p)), DiffTabs[sc][p], Len(p) - 1)
+LHOf(sc, p) == IF p = <<>> THEN EmptyH
+               ELSE StoreLH(LHOf(sc, Front(p)), DiffTabs[sc][p], Len(p) - 1, StateTabs[sc][Front(p)])
+NHTabs == [sc \in Scenarios |-> [p \in Paths \cup {<<>>} |-> NHOf(sc, p)]]
+LHTabs == [sc \in Scenarios |-> [p \in Paths \cup {<<>>} |-> LHOf(sc, p)]]
+
+(* readers: new state = the value of the greatest entry <= n (0 if none); legacy = the value of the
+   smallest entry > n, else the head value *)
+NewAt(E, n) == LET B == {e \in E : e[1] <= n} IN
+  IF B = {} THEN 0 ELSE (CHOOSE e \in B : \A f \in B : f[1] <= e[1])[2]
+LegAt(E, n, headv) == LET A == {e \in E : e[1] > n} IN
+  IF A = {} THEN headv ELSE (CHOOSE e \in A : \A f \in A : e[1] <= f[1])[2]
 
 --------------------------------------------------------------------------
 VARIABLES chain,      \* ghost: the path of the head block (<<>> = empty chain)
+          scn,        \* the diff alphabet of this behaviour (never changes)
           height, byNum, numByHash, txIdx,   \* what the database holds
-          slog, llog, \* storage-history keys per (contract, slot): new-state / legacy backend
+          nh, lh,     \* history buckets, deployment and declaration heights: new-state / legacy backend
           l1,         \* recorded L1 head number, -1 = none
           seen,       \* every path ever stored (so that reverted hashes can be asked for)
           reverts,
-          act, res, want
+          act, res, want,
+          resL        \* the legacy backend's answer (differs from res in the state methods only)
 
-vars == <<chain, height, byNum, numByHash, txIdx, slog, llog, l1, seen, reverts, act, res, want>>
-view == <<chain, height, byNum, numByHash, txIdx, slog, llog, l1, seen, reverts>>
-dbvars == <<chain, height, byNum, numByHash, txIdx, slog, llog, l1, seen, reverts>>
+vars == <<chain, scn, height, byNum, numByHash, txIdx, nh, lh, l1, seen, reverts, act, res, want, resL>>
+view == <<chain, scn, height, byNum, numByHash, txIdx, nh, lh, l1, seen, reverts>>
+dbvars == <<chain, scn, height, byNum, numByHash, txIdx, nh, lh, l1, seen, reverts>>
+
+(* the tables of this behaviour's alphabet *)
+StateTab == StateTabs[scn]
+DiffTab == DiffTabs[scn]
+
+(* storage history: the block of path p has a state-diff entry for slot s of contract c *)
+WroteSlot(p, c, s) == StorOf(DiffTab[p], c, s) # {}
+(* DECLARATIVE: the last block <= n of chain c whose state diff writes slot s of contract ct; 0 if none *)
+DLubIn(c, n, ct, s) ==
+  LET W == {m \in 0..n : WroteSlot(Prefix(c, m + 1), ct, s)} IN IF W = {} THEN 0 ELSE MaxOf(W)
 
 HugeNum == MaxLen + 1    \* stands for 2^64-1 (block_number) / a far-ahead L1 head
 Nums == 0..HugeNum       \* MaxLen and HugeNum are numbers no block ever has
@@ -205,20 +369,22 @@ Err(e) == [kind |-> "err", e |-> e]
 
 Init ==
   /\ chain = <<>>
+  /\ scn \in Scenarios
   /\ height = -1
   /\ byNum = [n \in Nums |-> NoPath]
   /\ numByHash = [h \in HashIds |-> -1]
   /\ txIdx = [t \in AllTx \cup {BogusTx} |-> NoIdx]
-  /\ slog = [k \in SlotKeys |-> {}] /\ llog = [k \in SlotKeys |-> {}]
+  /\ nh = EmptyH /\ lh = EmptyH
   /\ l1 = -1
   /\ seen = {}
   /\ reverts = 0
-  /\ act = [name |-> "Init"] /\ res = NoRes /\ want = NoRes
+  /\ act = [name |-> "Init"] /\ res = NoRes /\ want = NoRes /\ resL = NoRes
 
 --------------------------------------------------------------------------
 (* mutators: blockchain.Store (via SanityCheckNewHeight), blockchain.RevertHead, SetL1Head *)
 Store(v) ==
   /\ Len(chain) < MaxLen
+  /\ v \in VariantsAt(scn, Len(chain))
   /\ LET p == Append(chain, v)
          n == Len(chain)
      IN /\ chain' = p
@@ -230,13 +396,13 @@ Store(v) ==
                        THEN [n |-> n, i |-> (CHOOSE i \in 1..Len(TxsOf(p)) : TxsOf(p)[i] = t) - 1]
                        ELSE txIdx[t]]
         \* writeHistory (core/state) logs every diff entry; the legacy state logs reported changes
-        /\ slog' = [k \in SlotKeys |-> IF WroteSlot(p, k[1], k[2]) THEN slog[k] \cup {n} ELSE slog[k]]
-        /\ llog' = [k \in SlotKeys |-> IF LegacyLogs(p, k[1], k[2]) THEN llog[k] \cup {n} ELSE llog[k]]
+        /\ nh' = StoreNH(nh, DiffTab[p], n)
+        /\ lh' = StoreLH(lh, DiffTab[p], n, StateTab[chain])
         /\ seen' = seen \cup {p}
         /\ act' = [name |-> "Store", v |-> v, path |-> p, parent |-> chain, txs |-> TxsOf(p),
                    diff |-> DiffTab[p]]
-  /\ UNCHANGED <<l1, reverts>>
-  /\ res' = NoRes /\ want' = NoRes
+  /\ UNCHANGED <<l1, reverts, scn>>
+  /\ res' = NoRes /\ want' = NoRes /\ resL' = NoRes
 
 Revert ==
   /\ height >= 0 /\ reverts < MaxReverts
@@ -245,22 +411,22 @@ Revert ==
         /\ numByHash' = [numByHash EXCEPT ![p] = -1]
         /\ txIdx' = [t \in DOMAIN txIdx |->
                        IF \E i \in 1..Len(TxsOf(p)) : TxsOf(p)[i] = t THEN NoIdx ELSE txIdx[t]]
-        \* deleteHistory / performStateDeletions: the key (slot, height) of every entry of the diff
-        /\ slog' = [k \in SlotKeys |-> IF WroteSlot(p, k[1], k[2]) THEN slog[k] \ {height} ELSE slog[k]]
-        /\ llog' = [k \in SlotKeys |-> IF WroteSlot(p, k[1], k[2]) THEN llog[k] \ {height} ELSE llog[k]]
+        \* deleteHistory / performStateDeletions: the key (.., height) of every entry of the diff
+        /\ nh' = RevertNH(nh, DiffTab[p], height)
+        /\ lh' = RevertLH(lh, DiffTab[p], height, StateTab[p], StateTab[Front(p)])
   /\ height' = height - 1
   /\ chain' = Front(chain)
   /\ reverts' = reverts + 1
   /\ act' = [name |-> "Revert"]
-  /\ UNCHANGED <<l1, seen>>
-  /\ res' = NoRes /\ want' = NoRes
+  /\ UNCHANGED <<l1, seen, scn>>
+  /\ res' = NoRes /\ want' = NoRes /\ resL' = NoRes
 
 SetL1Head(n) ==
   /\ n \in Nums /\ n # l1
   /\ l1' = n
   /\ act' = [name |-> "SetL1Head", n |-> n, path |-> IF n < Len(chain) THEN Prefix(chain, n + 1) ELSE UnknownHash]
-  /\ UNCHANGED <<chain, height, byNum, numByHash, txIdx, slog, llog, seen, reverts>>
-  /\ res' = NoRes /\ want' = NoRes
+  /\ UNCHANGED <<chain, scn, height, byNum, numByHash, txIdx, nh, lh, seen, reverts>>
+  /\ res' = NoRes /\ want' = NoRes /\ resL' = NoRes
 
 --------------------------------------------------------------------------
 (* block identifiers *)
@@ -375,11 +541,7 @@ IBlock(id, on) == LET n == IResolve(id) IN
 (* ContractStorageLastUpdatedBlock of the reader stateByBlockID hands out: lastUpdatedBlockNumber
    seeks (slot, upTo) in the history bucket and steps back: the greatest logged number <= upTo, 0 if
    none.  upTo is the reader's block; the head reader behind `latest` passes 2^64-1. *)
-ILub(log, c, s, upTo) == LET B == {m \in log[<<c, s>>] : m <= upTo} IN IF B = {} THEN 0 ELSE MaxOf(B)
-IStorView(id, c, s, v, on) ==
-  LET upTo == IF id.k = "latest" THEN HugeNum ELSE IResolve(id)
-      short == LubZeroShortcut /\ v = 0       \* the history lookup skipped for zero values
-  IN StorView(v, IF short THEN 0 ELSE ILub(slog, c, s, upTo), IF short THEN 0 ELSE ILub(llog, c, s, upTo), on)
+ILub(E, upTo) == LET B == {e[1] : e \in {e \in E : e[1] <= upTo}} IN IF B = {} THEN 0 ELSE MaxOf(B)
 
 (* the state reader stateByBlockID hands out; "zero" = the pseudo state of block_hash 0x0 *)
 IStateOf(id) ==
@@ -396,6 +558,36 @@ ITxByIndex(id, i, on) ==
      ELSE IF byNum[n] = NoPath THEN (IF FixTxIndexMissingBlock THEN Err("BlockNotFound") ELSE Err("InvalidTxnIndex"))
      ELSE IF i >= Len(TxsOf(byNum[n])) THEN Err("InvalidTxnIndex")
      ELSE TxView(TxsOf(byNum[n])[i + 1], on)
+
+(* the five state methods on a reader that exists (IStateOf = "block"), backend be ("n" new state, "l"
+   legacy).  `latest` gets the HEAD reader: the values the tries / contract records hold (commitment-checked
+   by every Store and Revert, so they are those of the head block), existence from the contract / class
+   record.  Every other identifier gets the history reader of its block number:
+     new state  checkDeployed (deployment height <= n), then the greatest history entry <= n
+     legacy     the smallest log entry > n (its old value), else the head value; storage skips the
+                deployment probe for a non-zero value
+   and for both the class record's declaration height <= n. *)
+IStateAns(be, a) ==
+  LET h == IF be = "n" THEN nh ELSE lh
+      hs == StateTab[byNum[height]]
+      head == a.id.k = "latest"
+      n == IResolve(a.id)
+      dep(c) == c \in Contracts /\ h.dep[c] # -1 /\ (head \/ h.dep[c] <= n)
+      decl(k) == k \in Classes /\ h.cat[k] # -1 /\ (head \/ h.cat[k] <= n)
+      at(E, hv) == IF head THEN hv ELSE IF be = "n" THEN NewAt(E, n) ELSE LegAt(E, n, hv)
+      cls(c) == at(h.cls[c], hs.class[c])
+      sto(c, s) == at(h.stor[<<c, s>>], hs.stor[c][s])
+      lub(c, s, v) == IF LubZeroShortcut /\ v = 0 THEN 0     \* the history lookup skipped for zero values
+                      ELSE ILub(h.stor[<<c, s>>], IF head THEN HugeNum ELSE n)
+      storAns(c, s) == StorView(sto(c, s), lub(c, s, sto(c, s)), lub(c, s, sto(c, s)), FlagOn(a))
+  IN IF a.name = "getClass" THEN (IF decl(a.c) THEN [kind |-> "class", c |-> a.c] ELSE Err("ClassHashNotFound"))
+     ELSE IF a.c \notin Contracts THEN Err("ContractNotFound")
+     ELSE IF a.name = "getStorageAt" /\ be = "l" /\ ~head /\ sto(a.c, a.s) # 0 THEN storAns(a.c, a.s)
+     ELSE IF ~dep(a.c) THEN Err("ContractNotFound")
+     ELSE IF a.name = "getStorageAt" THEN storAns(a.c, a.s)
+     ELSE IF a.name = "getNonce" THEN [kind |-> "felt", v |-> at(h.nonce[a.c], hs.nonce[a.c])]
+     ELSE IF a.name = "getClassHashAt" THEN [kind |-> "classhash", c |-> cls(a.c)]
+     ELSE IF decl(cls(a.c)) THEN [kind |-> "class", c |-> cls(a.c)] ELSE Err("ClassHashNotFound")
 
 IRes(a) ==
   IF Fl(a) = "bad" THEN Err("InvalidParams") ELSE   \* the server decodes the parameters before the handler runs
@@ -428,22 +620,24 @@ IRes(a) ==
     [] a.name \in {"getStorageAt", "getNonce", "getClassHashAt", "getClassAt", "getClass"} ->
          CASE IStateOf(a.id) = "none" -> Err("BlockNotFound")
            [] IStateOf(a.id) = "zero" -> [kind |-> "pseudo"]   \* backend/version dependent answer
-           [] OTHER ->
-             LET st == StateTab[byNum[IResolve(a.id)]] IN
-             CASE a.name = "getClass" ->
-                    IF a.c \in st.declared THEN [kind |-> "class", c |-> a.c] ELSE Err("ClassHashNotFound")
-               [] OTHER ->
-                    IF a.c \notin Contracts \/ st.class[a.c] = NoClass THEN Err("ContractNotFound")
-                    ELSE CASE a.name = "getStorageAt" -> IStorView(a.id, a.c, a.s, st.stor[a.c][a.s], FlagOn(a))
-                           [] a.name = "getNonce" -> [kind |-> "felt", v |-> st.nonce[a.c]]
-                           [] a.name = "getClassHashAt" -> [kind |-> "classhash", c |-> st.class[a.c]]
-                           [] OTHER -> [kind |-> "class", c |-> st.class[a.c]]
+           [] OTHER -> LET rn == IStateAns("n", a)
+                           rl == IStateAns("l", a)
+                       IN IF rn.kind = "feltlub" /\ rl.kind = "feltlub" THEN [rn EXCEPT !.lubL = rl.lubL] ELSE rn
+
+(* what the LEGACY backend answers (the state methods aside, the same) *)
+IResL(a) ==
+  IF Fl(a) # "bad" /\ a.name \in {"getStorageAt", "getNonce", "getClassHashAt", "getClassAt", "getClass"}
+     /\ IStateOf(a.id) = "block"
+  THEN LET rn == IStateAns("n", a)
+           rl == IStateAns("l", a)
+       IN IF rn.kind = "feltlub" /\ rl.kind = "feltlub" THEN [rl EXCEPT !.lub = rn.lub] ELSE rl
+  ELSE IRes(a)
 
 (* Restart: new Blockchain / rpc.Handler / jsonrpc.Server objects on the same store (graceful =
    the running event filter is written first).  Nothing the node holds may change. *)
 Restart(graceful) ==
   /\ act' = [name |-> "Restart", graceful |-> graceful]
-  /\ res' = NoRes /\ want' = NoRes
+  /\ res' = NoRes /\ want' = NoRes /\ resL' = NoRes
   /\ UNCHANGED dbvars
 
 (* A read whose request is IN FLIGHT while the sync loop applies a short sequence of mutators
@@ -467,7 +661,7 @@ ApplyMut(st, m) ==
 
 MutEnabled(st, m) ==
   CASE m.name = "Revert" -> st.c # <<>>
-    [] m.name = "Store" -> Len(st.c) < MaxLen
+    [] m.name = "Store" -> Len(st.c) < MaxLen /\ m.v \in VariantsAt(scn, Len(st.c))
     [] OTHER -> m.n \in Nums /\ m.n # st.l
 
 RECURSIVE StatesAlong(_, _)
@@ -476,8 +670,6 @@ StatesAlong(st, muts) ==    \* <<st, st after muts[1], ...>>; <<>> if some mutat
   ELSE IF ~MutEnabled(st, muts[1]) THEN <<>>
   ELSE LET rest == StatesAlong(ApplyMut(st, muts[1]), Tail(muts))
        IN IF rest = <<>> THEN <<>> ELSE <<st>> \o rest
-
-NoDiff == [declared0 |-> {}, declared1 |-> {}, deployed |-> {}, replaced |-> {}, storage |-> {}, nonces |-> {}]
 
 ReadDuring(a, muts) ==
   LET sts == StatesAlong([c |-> chain, l |-> l1], muts)
@@ -490,7 +682,7 @@ ReadDuring(a, muts) ==
            /\ byNum' = [n \in Nums |-> IF n < Len(fin.c) THEN Prefix(fin.c, n + 1) ELSE NoPath]
            /\ numByHash' = [h \in HashIds |-> IF h \in Paths /\ IsPrefix(h, fin.c) THEN Len(h) - 1 ELSE -1]
            /\ txIdx' = [t \in DOMAIN txIdx |-> DTxPosIn(fin.c, t)]
-           /\ slog' = SLogOf(fin.c) /\ llog' = LLogOf(fin.c)
+           /\ nh' = NHTabs[scn][fin.c] /\ lh' = LHTabs[scn][fin.c] /\ scn' = scn
            /\ seen' = seen \cup {sts[i].c : i \in {j \in 2..Len(sts) : muts[j - 1].name = "Store"}}
            /\ reverts' = reverts + nrev
            /\ act' = [name |-> "ReadDuring", read |-> a,
@@ -505,6 +697,7 @@ ReadDuring(a, muts) ==
                                    chain |-> after.c, l1 |-> after.l]]]
            /\ res' = [kind |-> "oneof", allowed |-> allowed]
            /\ want' = [kind |-> "oneof", allowed |-> allowed]
+           /\ resL' = [kind |-> "oneof", allowed |-> allowed]
 
 (* the reorg shapes a sync loop produces while a request is being served *)
 MutSeqs ==
@@ -516,7 +709,7 @@ MutSeqs ==
   \cup {<<RevertMut, StoreMut(v), RevertMut, StoreMut(w)>> : v \in Variants, w \in Variants}
 
 (* one action per read method; the database is untouched *)
-Read(a) == /\ act' = a /\ res' = IRes(a) /\ want' = DWant(a) /\ UNCHANGED dbvars
+Read(a) == /\ act' = a /\ res' = IRes(a) /\ resL' = IResL(a) /\ want' = DWant(a) /\ UNCHANGED dbvars
 
 NoArg(name) == [name |-> name]
 IdArg(name, id) == [name |-> name, id |-> id]
@@ -576,6 +769,19 @@ Next ==
             \/ \E c \in CArgs, s \in Slots : GetStorageAtF(id, c, s, f)
        \/ \E t \in TxArgs : GetTransactionByHashF(t, f)
 
+(* the section scenarios are checked with the mutators and the reads that can observe a state-diff
+   section: the state methods (storage with and without INCLUDE_LAST_UPDATE_BLOCK) and getStateUpdate, by
+   every number, every hash ever stored (reverted ones included) and `latest` *)
+HistIds == {NumId(n) : n \in 0..MaxLen} \cup {HashId(h) : h \in seen} \cup {TagId("latest")}
+NextHist ==
+  \/ \E v \in Variants : Store(v)
+  \/ Revert
+  \/ \E id \in HistIds :
+       \/ GetStateUpdate(id)
+       \/ \E c \in Contracts : \/ GetNonce(id, c) \/ GetClassHashAt(id, c) \/ GetClassAt(id, c)
+                               \/ \E s \in Slots : GetStorageAt(id, c, s) \/ GetStorageAtF(id, c, s, "own")
+       \/ \E k \in Classes : GetClass(id, k)
+
 Spec == Init /\ [][Next]_vars
 
 --------------------------------------------------------------------------
@@ -586,6 +792,7 @@ TypeOK ==
   /\ l1 \in -1..HugeNum
   /\ seen \subseteq Paths
   /\ reverts \in 0..MaxReverts
+  /\ scn \in Scenarios
 
 (* the buckets describe exactly `chain` (what C02/C04 establish for the real store) *)
 IndexesDescribeChain ==
@@ -593,7 +800,8 @@ IndexesDescribeChain ==
   /\ \A n \in Nums : byNum[n] = IF n < Len(chain) THEN Prefix(chain, n + 1) ELSE NoPath
   /\ \A h \in HashIds : numByHash[h] = IF h \in Paths /\ IsPrefix(h, chain) THEN Len(h) - 1 ELSE -1
   /\ \A t \in DOMAIN txIdx : txIdx[t] = DTxPos(t)
-  /\ slog = SLogOf(chain) /\ llog = LLogOf(chain)
+  \* the history buckets hold what storing this chain writes: a Revert leaves nothing behind
+  /\ nh = NHTabs[scn][chain] /\ lh = LHTabs[scn][chain]
   /\ chain # <<>> => chain \in seen
 
 IsRead(a) == a.name \notin {"Init", "Store", "Revert", "SetL1Head", "Restart", "ReadDuring"}
@@ -613,8 +821,15 @@ LegacyLubDeviation(r, w) ==
 
 (* THE property: every answer is the data of Resolve(id) in the CURRENT chain, and an error
    exactly when the item is absent (DWant is an error iff it is) *)
+(* the legacy backend's answer: the same demand; its last_update_block is excused as above *)
+LegacyOK(rl, w) ==
+  \/ rl = w
+  \/ /\ ~FixLegacyZeroWriteLog /\ rl.kind = "feltlub" /\ w.kind = "feltlub"
+     /\ [rl EXCEPT !.lubL = w.lubL] = w
 ReadsAnswerFromChain ==
-  [][IsRead(act') /\ ~KnownDeviation(act') => res' = DWant(act') \/ LegacyLubDeviation(res', DWant(act'))]_vars
+  [][IsRead(act') /\ ~KnownDeviation(act') =>
+       /\ res' = DWant(act') \/ LegacyLubDeviation(res', DWant(act'))
+       /\ LegacyOK(resL', DWant(act'))]_vars
 
 (* response flags: a request without flags, with the empty list, and (fields the flag adds aside) with
    the method's flag is answered alike; anything else in response_flags is INVALID_PARAMS *)
@@ -641,7 +856,7 @@ LastUpdateWithinChain ==
        /\ \A m \in (want'.lub + 1)..n : ~WroteSlot(Prefix(chain, m + 1), act'.c, act'.s)]_vars
 
 (* the repaired design has no exception at all *)
-ReadsAnswerFromChainStrict == [][IsRead(act') => res' = DWant(act')]_vars
+ReadsAnswerFromChainStrict == [][IsRead(act') => res' = DWant(act') /\ resL' = DWant(act')]_vars
 
 (* hashes of reverted blocks and of their transactions resolve to not-found *)
 RevertedNotFound ==
